@@ -11,6 +11,7 @@ Answer: {"reproduced": bool, "input": scenario description, "detail": ..., "case
 '''
 import array
 import asyncio
+from _watchdog import guarded, ScenarioHang
 import hashlib
 import json
 import logging
@@ -702,7 +703,11 @@ def main():
     for i in range(rounds * len(modes)):
         fn = MODES[modes[i % len(modes)]]
         try:
-            desc, bad = fn(seed0 + i // len(modes))
+            desc, bad = guarded(fn, seed0 + i // len(modes))
+        except ScenarioHang:
+            desc, bad = {'seed': seed0 + i // len(modes), 'mode': modes[i % len(modes)]}, \
+                'the scenario did not finish within 120 s (normal: < 2 s): the index operation or the restart hangs'
+            os.chdir('/')
         except BaseException as e:   # noqa
             import traceback
             desc, bad = {'seed': seed0 + i}, f'scenario raised {e!r}: {traceback.format_exc()[-600:]}'
